@@ -51,8 +51,8 @@ CLAIMS = {
          'Every registry operation on four backends (N from 1, odd limb counts, multi-column, size < capacity, roomy and exact-size scratch) plus histories of resize / reallocate / corrupted deserialisation followed by use run in an AddressSanitizer build in which each operand and scratch window is its own exact-size heap block; any sanitizer report, guard-region damage or panic is a violation (death callback writes the replay).',
          'ASan instruments Rust code and intrinsics of harness and poulpy crates, not std and not global assembly (covered by patterned guard margins); uninitialised reads are only approximated by C11/C12; scheme-level layers are exercised through their own properties in the checked profile.', 'DESIGN.md section 6 C17'),
  'C18': ('pzv-serde', 'fault-injection property-based testing over every ReaderFrom implementation (truncation at every byte, header-field dictionary, bit flips)',
-         'For 26 hal/core layouts: round trip (object and bytes) into receivers of equal/larger shape; every truncation point of small objects exhaustively; header fields replaced from a boundary dictionary incl. overflowing products; after every read (Ok or Err) the receiver invariant is checked through public fields, the receiver is re-serialised and every coefficient read; a panic, arithmetic overflow, inconsistent receiver or changed dimensions on Err is a violation.',
-         'The four binary-FHE key wrappers are covered by the bin-fhe binary; wrapper scalars committed before delegation are observed, not judged.', 'DESIGN.md section 6 C18'),
+         'For 26 hal/core layouts and the four binary-FHE key types (BlindRotationKey, BlindRotationKeyCompressed, CircuitBootstrappingKey, BDDKey with and without ks_glwe; valid streams assembled from public components): round trip (object and bytes) into receivers of equal/larger shape; every truncation point of small objects exhaustively; header fields replaced from a boundary dictionary incl. overflowing products; after every read (Ok or Err) the receiver invariant is checked through public fields, the receiver is re-serialised and every coefficient read; a panic, arithmetic overflow, inconsistent receiver or changed dimensions on Err is a violation.',
+         'Wrapper scalars committed before delegation are observed, not judged; for the composite binary-FHE keys (no PartialEq / FillUniform) equality is judged on the re-serialised bytes and a damaged stream that is accepted is only required to leave a serialisable receiver.', 'DESIGN.md section 6 C18'),
  # id: (engine, technique, level text, level_note, design_ref)
  'C07': ('pzv-hal', 'property-based differential testing against an exact i128 schoolbook model (proptest, 4 backends)',
          'Generated search over DFT-domain operations (transforms, transform-domain arithmetic, svp, vmp, convolution) on all four backends with digit widths constructed inside the backend exactness domain; every result is compared bit for bit with the exact negacyclic/bivariate integer product. Finds any deviation on the explored shapes/values; does not prove absence.',
